@@ -81,7 +81,7 @@ Definition hstep (s : hst) (o : hop) : hst :=
   | HTimeout t =>
     match aget (h_threads s) t with
     | Some (TParked KFlush _) => s
-    | Some (TParked k _) => if destroyed s then set_uaf s else leave s t k RTimeout
+    | Some (TParked k _) => if destroyed s then set_uaf s else leave s t k (if h_shut s then RShutting else RTimeout)   (* wait_until returns the predicate *)
     | _ => s
     end
   | HShutWake t =>
@@ -98,7 +98,7 @@ Definition hstep (s : hst) (o : hop) : hst :=
     end
   | HFlushExit t =>
     match aget (h_threads s) t with
-    | Some (TParked KFlush _) => if destroyed s then set_uaf s else leave s t KFlush RFlushed
+    | Some (TParked KFlush _) => if destroyed s then set_uaf s else leave s t KFlush (if h_shut s then RShutting else RFlushed)
     | _ => s
     end
   | DFence =>
